@@ -21,8 +21,16 @@ use std::borrow::Cow;
 use std::collections::HashMap;
 use std::fmt;
 use std::net::{IpAddr, Ipv4Addr};
+#[cfg(not(quandary_verif))]
 use std::sync::{Arc, RwLock};
+#[cfg(quandary_verif)]
+use std::sync::Arc;
+#[cfg(quandary_verif)]
+use crate::verif::sync::RwLock;
+#[cfg(not(quandary_verif))]
 use std::time::SystemTime;
+#[cfg(quandary_verif)]
+use crate::verif::time::SystemTime;
 
 use crate::db::Catalog;
 use crate::message::reader::ReadRr;
